@@ -610,6 +610,13 @@ def oracle(log, res, which=('C05', 'C10')):
                     allowed |= rfc_answer(arg, fsm0)
                 elif name == 'HoldExpire':
                     allowed.add((4, 0))
+                    if isinstance(arg, list) and len(arg) == 2 and 'C10' in which:
+                        H, quiet = arg
+                        # RFC 4271 4.2 / 6.5: no hold timer with a negotiated hold time of 0; otherwise it fires after H
+                        # seconds without a message (integer clock: 1 s, and the message is read after it was handed over)
+                        if H == 0 or quiet < H - 1.5:
+                            bad.append((f'C10:hold-timer-fired-early:{ST_NAME[fsm0]}:hold={H}',
+                                        f'the hold timer fired (4/0) with a negotiated hold time of {H} s, {quiet} s after the last message of the peer'))
                 elif name == 'OpenWaitExpire' and fsm0 == 8:
                     allowed |= {(4, 0), (5, 1)}  # C12: ExaBGP's open wait ends with 5/1 by specification
             ok = (c, s) in allowed or (c, None) in allowed
